@@ -18,6 +18,12 @@ inductive ValEqv (S : Schema) : Val → Val → Prop
       always-written record (wrapper, map entry) a negative zero comes back as `+0.0` -/
   | negZero32 : ValEqv S (.f32 0x80000000) (.f32 0)
   | negZero64 : ValEqv S (.f64 0x8000000000000000) (.f64 0)
+  /-- a message that encodes to no byte at all and the fresh instance of its class: arises
+      for MAP VALUES only (an entry whose value encodes to nothing carries no value record,
+      and the decoder materialises `Cls()` for it; `serialized_on_wire` of a map value is
+      not observable through bytes, `==` or any presence query of the property) -/
+  | emptyMsg (c : Nat) (sl : List Val) (ow : Bool) (unk : Bytes) (cur : List (Option Nat)) :
+      dumpVal S (.msg c sl ow unk cur) = .ok [] → ValEqv S (.msg c sl ow unk cur) (fresh S c)
   | msg (c : Nat) (sl sl' : List Val) (ow : Bool) (unk : Bytes) (cur : List (Option Nat)) :
       SlotsEqv S (fieldsOf S c) cur 0 sl sl' → ValEqv S (.msg c sl ow unk cur) (.msg c sl' true unk cur)
   | list (xs ys : List Val) : ListEqv S xs ys → ValEqv S (.list xs) (.list ys)
